@@ -48,10 +48,10 @@ def run(v, tier, seed, replay):
                 dict(dims=[2, 3, 4, 5, 6], ops=["tob1", "tob0", "mixing"], invs=["LawMixing"], npat=1, nspec=8),
                 dict(dims=[2, 3, 4], ops=["wrot"], invs=["LawMixing"], npat=1, nspec=5)]
     else:
-        runs = [dict(dims=[2, 3, 4, 5, 6], ops=["rotate"], invs=["LawRotate"], npat=2, phases=res8),
+        runs = [dict(dims=[2, 3, 4, 5, 6], ops=["rotate"], invs=["LawRotate"], npat=1, phases=res8),
                 dict(dims=[2, 3, 4, 5, 6], ops=["rotate"], invs=["LawRotate"], npat=0, phases=wide, rotmode="seed", rotkeep=5),
-                dict(dims=[2, 3, 4, 5, 6], ops=["tob1", "tob0", "mixing"], invs=["LawMixing"], npat=2, nspec=40),
-                dict(dims=[2, 3, 4, 5], ops=["wrot"], invs=["LawMixing"], npat=1, nspec=8)]
+                dict(dims=[2, 3, 4, 5, 6], ops=["tob1", "tob0", "mixing"], invs=["LawMixing"], npat=1, nspec=16),
+                dict(dims=[2, 3, 4], ops=["wrot"], invs=["LawMixing"], npat=1, nspec=8)]
     algebra.explore_and_replay(v, "C06", runs, tolf=1024, timeout=3000)
     param_store(v)
     v.cov["rule"] = "Rotate(i,j,th,del): every index pair i<j of every dimension x (th,del) on the pi/4 lattice (all 64 residue pairs; negatives and >2pi in thorough) x every basis element; mixing matrix / RotateToB1 / RotateToB0 / Rotate(U) / UTransform(U) / UDaggerTransform(U) for single-plane, two-plane and pseudo-random angle assignments"
